@@ -136,7 +136,6 @@ theorem clone_http_complete (H : Bytes → Bytes) (hH : ∀ x, (H x).length = 64
     (hs : Stored H decomp a archive)
     (hpin : ∀ pin, opts.headerPin = some pin → pin = a.headerChecksum)
     (hdev : opts.blockDev = true → src.length ≤ prior.length)
-    (hbv : opts.blockDev = true → opts.verifyOutput = false)
     (hscript : ∀ chunks : List ChunkOffset, chunks.Sublist (archiveRanges a) →
       FetchCompletes archive e.retry chunks e.chunksScript) :
     let r := Clone.run H decomp features e.readAt e.readChunks opts prior seeds
@@ -157,7 +156,7 @@ theorem clone_http_complete (H : Bytes → Bytes) (hH : ∀ x, (H x).length = 64
       (hscript _ (cloneRanges_sublist a st2))
   rw [run_congr H decomp features e.readAt (honestReadAt archive) e.readChunks
     (honestReadChunks archive) opts prior seeds a hinit' hinit hch]
-  exact clone_complete_nojunk H hH decomp features archive opts prior seeds a src cks hinit hd hs hpin hdev hbv
+  exact clone_complete_nojunk H hH decomp features archive opts prior seeds a src cks hinit hd hs hpin hdev
 
 /-- Instance: every response of the chunk stream arrives completely (however fragmented) and
 there are at least as many as the archive has descriptors. -/
@@ -171,14 +170,13 @@ theorem clone_http_complete_full (H : Bytes → Bytes) (hH : ∀ x, (H x).length
     (hs : Stored H decomp a archive)
     (hpin : ∀ pin, opts.headerPin = some pin → pin = a.headerChecksum)
     (hdev : opts.blockDev = true → src.length ≤ prior.length)
-    (hbv : opts.blockDev = true → opts.verifyOutput = false)
     (hfull : ∀ r ∈ e.chunksScript, ∃ frags, r = Resp.full frags)
     (hlen : a.chunks.length ≤ e.chunksScript.length) :
     let r := Clone.run H decomp features e.readAt e.readChunks opts prior seeds
     (r.result = .ok ∧ setLen r.output src.length = src ∧ (opts.blockDev = false → r.output = src)) ∨
       Collision H a.hashLength cks :=
   clone_http_complete H hH decomp features archive e opts prior seeds a src cks hserve hat hinit hd
-    hs hpin hdev hbv (fun chunks hsub => fetchCompletes_of_full archive e.retry chunks e.chunksScript hfull
+    hs hpin hdev (fun chunks hsub => fetchCompletes_of_full archive e.retry chunks e.chunksScript hfull
       (Nat.le_trans (maximalRuns_length_le chunks) (Nat.le_trans hsub.length_le
         (by simpa [archiveRanges] using hlen))))
 
@@ -195,7 +193,6 @@ theorem clone_http_complete_budget (H : Bytes → Bytes) (hH : ∀ x, (H x).leng
     (hs : Stored H decomp a archive)
     (hpin : ∀ pin, opts.headerPin = some pin → pin = a.headerChecksum)
     (hdev : opts.blockDev = true → src.length ≤ prior.length)
-    (hbv : opts.blockDev = true → opts.verifyOutput = false)
     (hbad : (e.chunksScript.filter (fun r => match r with | .full _ => false | .part _ _ cut => cut | .refuse => true)).length ≤ e.retry)
     (hnoend : ∀ r ∈ e.chunksScript, ∀ n frags, r ≠ Resp.part n frags false)
     (hlen : a.chunks.length ≤
@@ -204,7 +201,7 @@ theorem clone_http_complete_budget (H : Bytes → Bytes) (hH : ∀ x, (H x).leng
     (r.result = .ok ∧ setLen r.output src.length = src ∧ (opts.blockDev = false → r.output = src)) ∨
       Collision H a.hashLength cks :=
   clone_http_complete H hH decomp features archive e opts prior seeds a src cks hserve hat hinit hd
-    hs hpin hdev hbv (fun chunks hsub => fetchCompletes_of_budget archive e.retry chunks e.chunksScript
+    hs hpin hdev (fun chunks hsub => fetchCompletes_of_budget archive e.retry chunks e.chunksScript
       hbad hnoend (Nat.le_trans (maximalRuns_length_le chunks) (Nat.le_trans hsub.length_le
         (by simpa [archiveRanges] using hlen))))
 
@@ -221,8 +218,7 @@ theorem clone_io_complete (H : Bytes → Bytes) (hH : ∀ x, (H x).length = 64)
     (hinit : tryInit H features (honestReadAt e.file) = .ok a) (hd : Describes H a src cks)
     (hs : Stored H decomp a e.file)
     (hpin : ∀ pin, opts.headerPin = some pin → pin = a.headerChecksum)
-    (hdev : opts.blockDev = true → src.length ≤ prior.length)
-    (hbv : opts.blockDev = true → opts.verifyOutput = false) :
+    (hdev : opts.blockDev = true → src.length ≤ prior.length) :
     let r := Clone.run H decomp features e.readAt e.readChunks opts prior seeds
     (r.result = .ok ∧ setLen r.output src.length = src ∧ (opts.blockDev = false → r.output = src)) ∨
       Collision H a.hashLength cks := by
@@ -239,6 +235,6 @@ theorem clone_io_complete (H : Bytes → Bytes) (hH : ∀ x, (H x).length = 64)
       hcs.1 (Nat.le_trans (cloneRanges_sum_le a st2) hcs.2)
   rw [run_congr H decomp features e.readAt (honestReadAt e.file) e.readChunks
     (honestReadChunks e.file) opts prior seeds a hinit' hinit hch]
-  exact clone_complete_nojunk H hH decomp features e.file opts prior seeds a src cks hinit hd hs hpin hdev hbv
+  exact clone_complete_nojunk H hH decomp features e.file opts prior seeds a src cks hinit hd hs hpin hdev
 
 end Bita.Proofs
